@@ -42,6 +42,43 @@ CLAIMED = {
             "site x failure wrap x neighbour) enumerated completely by TLC and turned into one implementation test per "
             "state. Truthiness is asserted only for True/False/failing results.",
             TRUSTED + "; expressions are side-effect free"),
+    'C02': (['Snapshot', 'Collector', 'Trace_Collector'],
+            "TLA+ spec Snapshot.tla (paused stack x frame_type x watches x tracepoints per location x time budget) "
+            "model-checked with TLC; its behaviours (tlc -simulate) materialised as real nested calls/methods and the "
+            "delivered snapshots compared with the spec state and an independent reading of the paused frames; value "
+            "rendering checked on random object graphs against by-construction expectations",
+            "Frames/frame_type/watch/naming rules are exhaustively model-checked within bounds (depth<=3, <=2 tracepoints) "
+            "and bound to the code by replaying sampled spec behaviours on real stacks (app and non-app files, methods, "
+            "a spawned thread); type name / value text / truncation / child names are compared for every variable of "
+            "random graphs. Rendering of arbitrary user classes is covered by enumerated kinds + sampling, not "
+            "exhaustion.",
+            TRUSTED + "; variable order, ids, hash text and durations are not compared"),
+    'C05': (['Collector', 'MC_Collector', 'Trace_Collector'],
+            "TLA+ spec Collector.tla (the work-list machine of the collector) model-checked with TLC over all object "
+            "graphs within bounds (invariants CountBound, DepthBound, CollBound, BreadthFirst, LocalsFirst, liveness "
+            "Terminates); real collector runs on enumerated and random graphs validated against the machine by TLC",
+            "All graphs with <=3 nodes (sharing, cycles), all short locals orders and a grid of the four limits are "
+            "checked exhaustively; every enumerated small instance (sampled in quick) and random instances up to 12 nodes "
+            "are built as real objects, collected by the real agent and the projected table must equal the machine's "
+            "result (TLC trace validation, invariants evaluated on every state). The time budget is exercised in C02.",
+            TRUSTED + "; limits are set on the LocationAction config"),
+    'C06': (['Collector', 'MC_Collector', 'Trace_Collector', 'Snapshot'],
+            "TLA+ specs Collector.tla (hostile node kind: recorded, no children, machine continues) and Snapshot.tla "
+            "(Independent: one table per tracepoint) model-checked with TLC; a catalogue of ~50 hostile Python values x "
+            "5 placements x 1-2 tracepoints, random hostile graphs (TLC-validated) and multi-tracepoint spec behaviours "
+            "run on the real agent, snapshots converted and serialised",
+            "Totality is a claim over all types: the spec fixes what a hostile value must look like, TLC checks the "
+            "machine, and the binding is a catalogue of concrete everyday and adversarial values plus random graphs - "
+            "enumeration of classes plus sampling, not exhaustion of Python's type universe.",
+            TRUSTED + "; placeholder wording is not compared"),
+    'C07': (['Collector', 'MC_Collector', 'Trace_Collector'],
+            "TLA+ spec Collector.tla with the watch phase (invariants Closed, OneIdPerObject, WatchClosed, WatchDedup, "
+            "NoRepeatDescent, Terminates) model-checked with TLC; real collector runs with watches (normal and tiny watch "
+            "budget) validated against the machine by TLC; fresh-temporary and alias watches checked by value",
+            "All graphs with <=3 nodes with arbitrary sharing/cycles and <=2 watches are model-checked; random graphs with "
+            "1-3 watches are collected by the real agent with and without the budget being hit and the table + watch "
+            "results must equal the machine's. Known finding: a watch on locals() dangles (listed).",
+            TRUSTED + "; object identity is CPython id() for objects alive during the event"),
 }
 
 NOT_YET = {}
